@@ -64,7 +64,7 @@ Init == \E i \in 1..Len(Programs) : InitSem(i, <<>>, FALSE)
 Next == SemNext
 EmitInv == (EmitOn /\ Final) =>
    Emit([fam |-> "arrays", cls |-> ClassOf(Cases[pid]), key |-> HName(Cases[pid]), pid |-> pid,
-         toks |-> Compact(Yield(MinParen(P))), stdin |-> stdin, repl |-> repl,
+         toks |-> Compact(Yield(MinParen(P))), tree |-> P, stdin |-> stdin, repl |-> repl,
          status |-> status, why |-> why, out |-> out, diags |-> diags, natlog |-> natlog, steps |-> steps])
 (* PushRemoveArePure: the built-ins never modify an existing cell *)
 NativesArePure == [][(ctl.m = "val" /\ kont # <<>> /\ Head(kont).f = "kids" /\ Node(Head(kont).p).k = "call"
